@@ -487,6 +487,29 @@ def hierarchical_part(ctx):
                 if got.shape != (n,) or np.abs(R @ got - cf).max() > 1e-8 * max(1.0, np.abs(cf).max()):
                     ctx.violation('hierarchical project_L2 does not reproduce a global polynomial ' + sigb,
                                   {'maxdiff': float(np.abs(R @ got - cf).max()) if got.shape == (n,) else 'shape'})
+                # (a') the same history on coarse knot vectors whose interior knots have multiplicity 2 (outside the HSpace
+                #      model, whose levels have simple knots): numeric predicate with the object's own represent_fine()
+                if min(consts['P1'], consts['P2'] if consts['D'] == 2 else consts['P1']) >= 2:
+                    try:
+                        kvs2 = hs_util.make_kvs(consts, integer_grid=True, mult=2)
+                        hs2 = hierarchical.HSpace(kvs2, truncate=trunc, disparity=consts['Disp'] if consts['Disp'] > 0 else np.inf)
+                        for call in rp['hist']:
+                            hs2.refine(hs_util.render_marks(call, 'set', hs2))
+                        kvf2 = hs2.knotvectors(hs2.numlevels - 1)
+                        got3 = np.asarray(approx.project_L2(hs2, poly)).ravel()
+                        cf3 = _b.interpolate(kvf2[0], lambda x: 1.0 + (x / S[0]) ** pmin) if len(kvf2) == 1 else \
+                            approx.interpolate(kvf2, poly)
+                        cf3 = np.asarray(cf3).ravel()
+                        R3 = hs2.represent_fine().toarray()
+                        ctx.case(('hproj-mult2', name, json.dumps(marks), trunc), nontrivial=hs2.numlevels >= 2)
+                        if got3.shape != (hs2.numdofs,) or not np.all(np.isfinite(got3)) or \
+                                np.abs(R3 @ got3 - cf3).max() > 1e-8 * max(1.0, np.abs(cf3).max()):
+                            ctx.violation('numeric: hierarchical project_L2 does not reproduce a global polynomial '
+                                          'repeated-interior-knots ' + sigb,
+                                          {'maxdiff': float(np.abs(R3 @ got3 - cf3).max()) if got3.shape == (hs2.numdofs,) else 'shape'})
+                    except Exception as ex:
+                        ctx.violation('exception %s hierarchical project_L2 repeated-interior-knots %s' % (type(ex).__name__, sigb),
+                                      {'error': repr(ex)})
                 # (b) a function of the space with kinks inside coarse cells (integer combination of the basis)
                 c = rng.randint(-3, 4, size=n).astype(float)
                 try:
